@@ -4,9 +4,12 @@
 # every later run of the check replays first), provided it is a deterministic target's case and passes on the unchanged tree.
 cd "$(dirname "$0")/.."
 out=seeded/RESULTS.tsv
-printf "change\tproperty\texit\tseconds\tfirst_tag\n" > $out
+[ "${RESUME:-0}" = 1 ] && [ -f $out ] || printf "change\tproperty\texit\tseconds\tfirst_tag\n" > $out
+# (a short shrink budget and one reported failure per campaign keep a full matrix within a few hours)
+export VERIF_SHRINK_S=${VERIF_SHRINK_S:-12} VERIF_MAXFAIL=${VERIF_MAXFAIL:-1}
 for d in seeded/C*; do
   id=$(basename $d); prop=$(echo $id | cut -c1-3)
+  grep -q "^$id	" $out && continue
   chk=$prop
   t0=$(date +%s)
   log=$(tools/try_seeded.sh $d/patch.diff $chk --scale ${SCALE:-0.5} 2>&1)
